@@ -1,7 +1,202 @@
-//! C10 — stub (monitor not built yet)
-use crate::run::{Ctx, Report, Stats};
-pub fn run(_ctx: &Ctx) -> Report {
-    let mut r = Report::new(Stats::default(), "not built");
-    r.inconclusive.push("monitor-not-built".into());
-    r
+//! C10 — root finder returns n finite values that are roots for every degree-n input.
+use crate::fl::{self, CDD, U};
+use crate::mon::common::*;
+use crate::rng::Rng;
+use crate::run::{catch, par_run, Ctx, Outcome, Report, Stats};
+use ohsl::verif::{self, Event};
+use ohsl::{Cmplx, Polynomial};
+use std::cell::RefCell;
+use std::rc::Rc;
+
+const TAG: u64 = 0xC10;
+
+/// backward-error thresholds per solution path (fixed; see DESIGN 5/C10 and section 8)
+pub fn tau(degree: usize, refine: bool) -> f64 {
+    match degree {
+        1 | 2 => 64.0 * U,
+        3 => if refine { 64.0 * U } else { 1e-6 },
+        _ => if refine { 1e-12 } else { 1e-8 },
+    }
+}
+
+#[derive(Clone, Debug, Default)]
+pub struct LagLog { pub calls: usize, pub max_iter: usize, pub exhausted: usize, pub stalled: usize }
+
+/// call `roots` with the H5 sink installed
+fn with_log<R>(f: impl FnOnce() -> R) -> (Outcome<R>, LagLog) {
+    let log = Rc::new(RefCell::new(LagLog::default()));
+    let l2 = log.clone();
+    verif::set_sink(Box::new(move |ev| {
+        if let Event::Laguer { iterations, exit, .. } = ev {
+            let mut l = l2.borrow_mut();
+            l.calls += 1;
+            l.max_iter = l.max_iter.max(iterations);
+            if exit == 2 { l.exhausted += 1; }
+            if exit == 1 { l.stalled += 1; }
+        }
+    }));
+    let out = catch(f);
+    verif::clear_sink();
+    let l = log.borrow().clone();
+    (out, l)
+}
+
+/// p(z) by Horner in complex double-double, with coefficient magnitudes
+fn eval_dd(c: &[Cmplx], z: Cmplx) -> f64 {
+    let zz = CDD::from(z);
+    let mut p = CDD::from(c[c.len() - 1]);
+    for k in (0..c.len() - 1).rev() { p = p * zz + CDD::from(c[k]); }
+    p.abs()
+}
+
+pub fn backward_error(c: &[Cmplx], z: Cmplx) -> f64 {
+    let n = c.len() - 1;
+    let amax = c.iter().fold(0.0f64, |m, a| m.max(fl::cabs(*a)));
+    let az = fl::cabs(z);
+    if az <= 1.0 { eval_dd(c, z) / amax }
+    else {
+        // evaluate the reversed polynomial at 1/z to avoid overflow: p(z)/z^n = sum a_k (1/z)^(n-k)
+        let w = CDD::from_re(1.0) / CDD::from(z);
+        let mut p = CDD::from(c[0]);
+        for k in 1..=n { p = p * w + CDD::from(c[k]); }
+        p.abs() / amax
+    }
+}
+
+pub struct Case { pub coeffs: Vec<Cmplx>, pub real: bool, pub class: &'static str, pub known_roots: Option<Vec<Cmplx>> }
+
+fn expand(roots: &[Cmplx], lead: Cmplx) -> Vec<Cmplx> {
+    let mut c = vec![lead];
+    for r in roots { let mut n = vec![Cmplx::new(0.0, 0.0); c.len() + 1]; for (i, a) in c.iter().enumerate() { n[i + 1] = n[i + 1] + *a; n[i] = n[i] - *a * *r; } c = n; }
+    c
+}
+
+/// well-separated roots on the half-integer lattice (separation >= 0.5); real case: conjugate-closed. Coefficients exact in f64.
+fn separated_roots(rng: &mut Rng, n: usize, real: bool) -> Vec<Cmplx> {
+    let mut out: Vec<Cmplx> = vec![];
+    let mut tries = 0;
+    while out.len() < n && tries < 10_000 {
+        tries += 1;
+        let z = Cmplx::new(rng.int(-4, 4) as f64 * 0.5, if real && (n - out.len() < 2 || rng.bool()) { 0.0 } else { rng.int(-4, 4) as f64 * 0.5 });
+        let cand: Vec<Cmplx> = if real && z.imag != 0.0 { vec![z, z.conj()] } else { vec![z] };
+        if out.len() + cand.len() > n { continue; }
+        if cand.iter().all(|c| out.iter().all(|o| fl::cabs(*o - *c) >= 0.5)) { out.extend(cand); }
+    }
+    out
+}
+
+pub fn gen_case(rng: &mut Rng, n: usize, real: bool, class: u64) -> Case {
+    let z0 = Cmplx::new(0.0, 0.0);
+    let rc = |rng: &mut Rng, s: f64| if real { Cmplx::new(rng.sym() * s, 0.0) } else { Cmplx::new(rng.sym() * s, rng.sym() * s) };
+    let nzlead = |rng: &mut Rng| { let mut l = rc(rng, 1.0); if fl::cabs(l) < 0.1 { l = Cmplx::new(1.0, 0.0); } l };
+    match class {
+        0 => { let mut c: Vec<Cmplx> = (0..=n).map(|_| rc(rng, 1.0)).collect(); c[n] = nzlead(rng); Case { coeffs: c, real, class: "random", known_roots: None } }
+        1 => { let mut c: Vec<Cmplx> = (0..=n).map(|_| { let s = rng.logpos(1e-3, 1e3); rc(rng, s) }).collect(); c[n] = nzlead(rng) * rng.logpos(1e-3, 1e3); Case { coeffs: c, real, class: "scale-ratio-1e6", known_roots: None } }
+        2 => { let k = rng.usize(1, n); let mut c: Vec<Cmplx> = (0..=n).map(|i| if i < k { z0 } else { rc(rng, 1.0) }).collect(); c[n] = nzlead(rng); if k < n && fl::cabs(c[k]) < 0.05 { c[k] = Cmplx::new(0.7, 0.0); } Case { coeffs: c, real, class: "roots-at-zero", known_roots: None } }
+        3 => { let mut c: Vec<Cmplx> = (0..=n).map(|_| if rng.chance(0.5) { z0 } else { rc(rng, 1.0) }).collect(); c[n] = nzlead(rng); Case { coeffs: c, real, class: "vanishing-inner", known_roots: None } }
+        4 => { let r = separated_roots(rng, n, real); if r.len() < n { return gen_case(rng, n, real, 0); } let lead = Cmplx::new(*rng.pick(&[1.0, -1.0, 2.0, 0.5]), 0.0); Case { coeffs: expand(&r, lead), real, class: "well-separated", known_roots: Some(r) } }
+        5 => { // repeated roots
+            let base = separated_roots(rng, (n + 1) / 2, real); let mut r = vec![]; while r.len() < n { for b in &base { if r.len() < n { r.push(*b); } } }
+            if real { let im: f64 = r.iter().map(|z| z.imag).sum(); if im != 0.0 { return gen_case(rng, n, real, 0); } }
+            Case { coeffs: expand(&r, Cmplx::new(1.0, 0.0)), real, class: "repeated", known_roots: None } }
+        6 => { // clusters 1e-3 apart
+            let c0 = Cmplx::new(rng.int(-2, 2) as f64 * 0.5, 0.0); let mut r: Vec<Cmplx> = (0..n).map(|i| if i < 3.min(n) { c0 + Cmplx::new(1e-3 * i as f64, 0.0) } else { Cmplx::new(rng.int(-6, 6) as f64 * 0.5 + 0.25, 0.0) }).collect();
+            if !real && n >= 2 { r[n - 1] = Cmplx::new(0.0, 1.0); }
+            Case { coeffs: expand(&r, Cmplx::new(1.0, 0.0)), real, class: "clustered", known_roots: None } }
+        7 => { // conjugate pairs / purely imaginary roots
+            let mut r = vec![]; while r.len() + 1 < n { let y = rng.int(1, 6) as f64 * 0.5; let x = if rng.bool() { 0.0 } else { rng.int(-3, 3) as f64 * 0.5 }; r.push(Cmplx::new(x, y)); r.push(Cmplx::new(x, -y)); }
+            if r.len() < n { r.push(Cmplx::new(rng.int(-3, 3) as f64, 0.0)); }
+            Case { coeffs: expand(&r, Cmplx::new(1.0, 0.0)), real, class: "conjugate-pairs", known_roots: None } }
+        8 => { let mut c = vec![z0; n + 1]; c[n] = Cmplx::new(1.0, 0.0); c[0] = if real { Cmplx::new(rng.logmag(1e-3, 1e3), 0.0) } else { Cmplx::new(rng.sym(), rng.sym()) }; Case { coeffs: c, real, class: "x^n+c", known_roots: None } }
+        _ => { let mut c = vec![z0; n + 1]; c[n] = Cmplx::new(1.0, 0.0); c[0] = Cmplx::new(rng.logmag(0.1, 10.0), 0.0); if n >= 2 { c[1] = Cmplx::new(rng.logmag(1e-8, 1e-2), 0.0); } Case { coeffs: c, real, class: "x^n+eps*x+c", known_roots: None } }
+    }
+}
+
+fn judge(st: &mut Stats, case: &Case, refine: bool) {
+    st.next_case();
+    let c = &case.coeffs;
+    let n = c.len() - 1;
+    let ty = if case.real { "f64" } else { "Cmplx" };
+    let desc = || format!("T={} degree={} refine={} class={} coeffs(low->high)={:?}", ty, n, refine, case.class, c);
+    let (out, log) = if case.real { let p = Polynomial::new(c.iter().map(|z| z.real).collect::<Vec<f64>>()); with_log(|| p.roots(refine)) } else { let p = Polynomial::new(c.clone()); with_log(|| p.roots(refine)) };
+    st.eval();
+    let path = match n { 1 => "linear", 2 => "quadratic", 3 => "cubic", _ => "laguer" };
+    // classification key for the iterative path (hook H5): did any Laguerre call hit its iteration cap?
+    let lag = if n >= 4 || refine { if log.exhausted > 0 { ":cap-exhausted" } else { ":converged" } } else { "" };
+    if n >= 4 { st.count(&format!("laguer-calls:{}", if log.exhausted > 0 { "with-cap-exhausted" } else { "all-converged-or-stalled" })); st.max("laguer:max_iterations_used", log.max_iter as f64); }
+    let roots = match out {
+        Outcome::Ok(r) => r.vec,
+        o => { st.violation(&format!("C10:roots:{}{}:panic", path, lag), format!("{}; {}", o.describe(), desc())); return; }
+    };
+    if roots.len() != n { st.violation(&format!("C10:roots:{}{}:count", path, lag), format!("{} values returned; {}", roots.len(), desc())); return; }
+    if !fl::all_finite_c(&roots) { st.violation(&format!("C10:roots:{}{}:nonfinite", path, lag), format!("roots = {:?}; {}", roots, desc())); return; }
+    let t = tau(n, refine);
+    let mut worst = 0.0f64;
+    for z in &roots { worst = worst.max(backward_error(c, *z)); }
+    if log.exhausted == 0 { st.max(&format!("be_over_tau:deg{}:{}", n.min(4), if refine { "refined" } else { "plain" }), worst / t); st.count(&format!("be-decade:deg{}{}:{}:1e{}", if n >= 4 { "4+" } else { ["", "1", "2", "3"][n] }, lag, if refine { "refined" } else { "plain" }, (worst.max(1e-20).log10().ceil() as i64).max(-17))); }
+    if !(worst <= t) { st.violation(&format!("C10:roots:{}{}:backward-error", path, lag), format!("worst backward error {:e} > {:e}; roots = {:?}; {}", worst, t, roots, desc())); }
+    else if let Some(kr) = &case.known_roots {
+        // one-to-one correspondence with the true (well-separated) roots
+        let mut used = vec![false; n];
+        for zeta in kr {
+            // cond(zeta) = sum|a_k||zeta|^k / (|zeta||p'(zeta)|)
+            let az = fl::cabs(*zeta);
+            let mut s = 0.0; let mut dp = CDD::ZERO;
+            for k in 0..=n { s += fl::cabs(c[k]) * az.powi(k as i32); }
+            for k in (1..=n).rev() { dp = dp * CDD::from(*zeta) + CDD::from(c[k] * (k as f64)); }
+            let amax = c.iter().fold(0.0f64, |m, a| m.max(fl::cabs(*a)));
+            let radius = (16.0 * t * amax * az.max(1.0).powi(n as i32) / dp.abs().max(1e-300)).max(64.0 * U * az.max(1.0)).min(0.2);
+            let _ = s;
+            let mut best: Option<usize> = None;
+            for (i, z) in roots.iter().enumerate() { if !used[i] && fl::cabs(*z - *zeta) <= radius { best = Some(i); break; } }
+            match best { Some(i) => used[i] = true, None => { st.violation(&format!("C10:roots:{}{}:no-match-for-true-root", path, lag), format!("true root {:?} has no returned value within {:e}; roots = {:?}; {}", zeta, radius, roots, desc())); break; } }
+        }
+        st.count("matched-known-root-sets");
+    }
+    st.count(&format!("cases:{}:deg{}:{}", ty, n, case.class));
+    let mut h = hash_str(ty) ^ (refine as u64); for z in c { h = hmix(hmix(h, z.real.to_bits()), z.imag.to_bits()); }
+    st.nontrivial(h);
+    st.sample(|| desc());
+}
+
+fn rejection(st: &mut Stats, rng: &mut Rng) {
+    st.next_case();
+    let c = rng.sym();
+    for (name, out) in [
+        ("degree0-f64", catch(|| Polynomial::new(vec![c]).roots(rng.bool()).vec.len())),
+        ("degree0-Cmplx", catch(|| Polynomial::new(vec![Cmplx::new(c, 1.0)]).roots(false).vec.len())),
+        ("empty-f64", catch(|| Polynomial::<f64>::new(vec![]).roots(true).vec.len())),
+        ("empty-Cmplx", catch(|| Polynomial::<Cmplx>::new(vec![]).roots(false).vec.len())),
+    ] {
+        st.eval();
+        if let Outcome::Ok(k) = out { st.violation(&format!("C10:roots:{}:accepted", name), format!("returned {} values for c={}", k, c)); } else { st.count("rejections"); }
+    }
+}
+
+pub fn run(ctx: &Ctx) -> Report {
+    // hook liveness
+    let (_, log) = with_log(|| Polynomial::new(vec![1.0, -3.0, 0.5, 2.0, 1.0]).roots(true));
+    let hook_live = log.calls > 0;
+    let units = 12u64 * 10 * 2; // degree x class x {real, complex}
+    let reps = ctx.vol(3000, 100_000);
+    let stats = par_run(ctx, TAG, units, |u, rng, st| {
+        let n = (u / 20) as usize + 1;
+        let class = (u / 2) % 10;
+        let real = u % 2 == 0;
+        for k in 0..reps {
+            let case = gen_case(rng, n, real, class);
+            judge(st, &case, k % 2 == 0);
+            if k % 16 == 0 { judge(st, &case, k % 2 == 1); }
+        }
+        if u % 20 == 0 { for _ in 0..5 { rejection(st, rng); } }
+    });
+    let mut rep = Report::new(stats,
+        "degrees 1..12 x {f64, Complex<f64>} x {refine, no refine} x 10 classes (random, coefficient scale ratio up to 1e6, vanishing constant term of multiplicity 1..n, vanishing inner coefficients, well-separated half-integer-lattice roots with exact coefficients, repeated roots, clusters 1e-3 apart, conjugate/purely imaginary pairs, x^n+c, x^n+eps*x+c); per call: n finite values, normwise backward error |p(z)|/(max|a_k| max(1,|z|)^n) in complex double-double <= tau(path), one-to-one matching for the well-separated class; degree-0 and empty polynomials must be rejected. Hook H5 classifies each call by whether a Laguerre iteration hit its cap. Every case non-trivial; distinct = distinct (type,refine,coefficients) hashes");
+    rep.assumptions = vec![
+        "thresholds: degree 1-2 64u; degree 3 1e-6 plain / 64u refined; degree>=4 1e-8 plain / 1e-12 refined".into(),
+        "matching radius 16*tau*max|a|*max(1,|zeta|)^n/|p'(zeta)| (first-order forward error), capped at 0.2".into(),
+    ];
+    rep.min_nontrivial = 2000;
+    if !hook_live { rep.inconclusive.push("hook-H5-laguer-silent".into()); }
+    rep
 }
